@@ -155,7 +155,7 @@ Theorem C09_log_reader_total_bounded : forall bits crc,
   (forall hf pos rest h1 pos1 rest1 buf1 pos2 rest2 h2 pos3 rest3 buf3,
      Log.Model.next_frame bits crc hf pos rest [] = Log.Model.FrSome h1 pos1 rest1 buf1 ->
      Log.Model.next_frame bits crc hf pos2 rest2 buf1 = Log.Model.FrSome h2 pos3 rest3 buf3 ->
-     Log.ModelWire.len buf1 <= Gen.Const_Log.TABLE_FULL_SIZE /\ Log.ModelWire.len buf3 <= 2 * Gen.Const_Log.TABLE_FULL_SIZE).
+     Log.ModelWire.len buf1 <= Gen.Const_Log.TABLE_FULL_SIZE /\ Log.ModelWire.len buf3 <= LOG_ALLOC_BOUND).
 Proof.
   intros bits crc. split; [intros file; exact (Log.Props_C12.C12_reader_total bits crc file)|].
   destruct (Damage.ProofsLog.log_reader_allocation_bounded bits crc) as (H1 & _ & H3). split; [exact H1|exact H3].
@@ -326,6 +326,23 @@ Theorem C09_mani_line_damage_detected_or_harmless : forall crc acc l l' acc1,
   (Mani.Model.crc32 crc (skipn 8 l') = Mani.Model.crc32 crc (skipn 8 l) -> skipn 8 l' = skipn 8 l) ->
   Mani.Model.do_line crc acc l' = Mani.Model.do_line crc acc l \/ Damage.ProofsMani.rejects crc acc l'.
 Proof. exact Damage.ProofsMani.line_damage_detected_or_harmless. Qed.
+
+(* ---- the same from the bytes: ONE byte of a manifest that reads to the end is overwritten (every
+   single-bit flip is such an overwrite), neither the old nor the new byte being a line feed or a
+   carriage return.  Exactly one line changes, in one position; under the hypothesis that crc tells
+   the rest of that damaged line from the rest of the original line, the damaged manifest reads to
+   the same state or fails with an error.  (Damage that creates or destroys a line break is
+   decided on samples.) *)
+Theorem C09_mani_byte_overwrite_detected_or_harmless : forall crc pre b b' post st1,
+  b <> 10 -> b <> 13 -> b' <> 10 -> b' <> 13 -> b' <> b ->
+  Mani.Model.read_mani crc (Some (pre ++ b :: post)) = Mani.Model.Ok st1 ->
+  (forall A u v B, Mani.Model.lines (pre ++ b :: post) = A ++ (u ++ b :: v) :: B ->
+     Mani.Model.lines (pre ++ b' :: post) = A ++ (u ++ b' :: v) :: B ->
+     Mani.Model.crc32 crc (skipn 8 (u ++ b' :: v)) = Mani.Model.crc32 crc (skipn 8 (u ++ b :: v)) ->
+     skipn 8 (u ++ b' :: v) = skipn 8 (u ++ b :: v)) ->
+  Mani.Model.read_mani crc (Some (pre ++ b' :: post)) = Mani.Model.Ok st1 \/
+  exists x, Mani.Model.read_mani crc (Some (pre ++ b' :: post)) = Mani.Model.Err x.
+Proof. exact Damage.ProofsMani.mani_byte_overwrite_detected_or_harmless. Qed.
 
 (* ... and a rejected line is an error of the whole read, whatever follows it *)
 Theorem C09_mani_rejected_line_is_error : forall crc l', Damage.ProofsMani.rejected crc l' ->
